@@ -18,6 +18,7 @@ RULE = ('case = prefix of a random history of Problem.solve calls (2-3 problems 
         'every Variable; non-trivial = history in which a failed/infeasible solve is followed or preceded by a successful solve of '
         'a problem sharing a Variable; distinct by history hash')
 TRUSTED = ['translator harness/translator/tables.py (fail-closed ast walk of ECOS.parse_result, Problem.__init__/solve)',
+           'translator harness/translator/mosek_tab.py (Mosek._primal/_dual_parse_result, decide_primal_vs_dual, dispatch) validated at run time against a scripted stand-in for the mosek module',
            'correspondence harness harness/props/c09.py incl. the scripted solver stub substituted for ECOS.solve_via_data',
            'ORACLE: the ECOS binary (optimality and feasibility of the x it returns, exit flags it chooses)']
 ASSUMPTIONS = ['what ECOS returns is trusted: "value equals the true optimum" and "feasible to solver tolerance" are decided only '
@@ -287,7 +288,234 @@ def real_ecos_stream(ctx):
     return fails
 
 
+# ------------------------------------------------------------------ MOSEK interface with a scripted task (MOSEK itself is absent)
+MOSEK_HEADER = ('From Coq Require Import List Bool Arith.\n'
+                'From SageVerif Require Import Gen.GenEcosParse Gen.GenProblemSolve Gen.GenMosek Model.SolverForms Proofs.MosekSpec Base.Corr.\n'
+                'Import ListNotations.\n'
+                'Definition sol_of (k : nat) : solsta := nth k [MOptimal; MIntegerOptimal; MDualInfeasCer; MPrimInfeasCer] MOtherSolsta.\n'
+                'Definition st_code (s : status) : nat := match s with Solved => 0 | Inaccurate => 1 | Failed => 2 end.\n'
+                'Definition rep_code (r : reported) : nat := match r with RObjective false => 0 | RObjective true => 1 | RPlusInf => 2 '
+                '| RMinusInf => 3 | RNaN => 4 end.\n'
+                'Definition rd_code (r : mread) : nat := match r with ReadXX => 0 | ReadY => 1 | ReadNone => 2 end.\n'
+                '(* input: ((has_integers, has_dualize, dualize_val), (slack_dim, ncols), is_min, solsta index) *)\n'
+                'Definition model (x : (bool * bool * bool) * (nat * nat) * bool * nat) :=\n'
+                '  let \'(fl, dims, is_min, k) := x in let \'(hi, hd, dv) := fl in\n'
+                '  let dual := mosek_decide_dual hi hd dv (fst dims) (snd dims) in\n'
+                '  let \'(st, rep, loaded) := mosek_reported dual is_min (sol_of k) in\n'
+                '  let \'(_, _, _, rd) := if dual then mosek_dual_parse (sol_of k) else mosek_primal_parse (sol_of k) in\n'
+                '  (dual, (st_code st, rep_code rep), (loaded, rd_code rd)).\n'
+                'Definition out_eqb := pair_eqb (pair_eqb Bool.eqb (pair_eqb Nat.eqb Nat.eqb)) (pair_eqb Bool.eqb Nat.eqb).')
+SOLSTA_NAMES = ['optimal', 'integer_optimal', 'dual_infeas_cer', 'prim_infeas_cer', 'unknown', 'prim_feas', 'dual_feas',
+                'prim_and_dual_feas', 'prim_illposed_cer', 'dual_illposed_cer']
+
+
+def fake_mosek():
+    """a stand-in for the `mosek` module: only the names the parse functions look up"""
+    import types
+    m = types.ModuleType('mosek')
+
+    class _Enum:
+        def __init__(self, prefix, names):
+            for n in names:
+                setattr(self, n, '%s.%s' % (prefix, n))
+    m.solsta = _Enum('solsta', SOLSTA_NAMES)
+    m.soltype = _Enum('soltype', ['itr', 'itg', 'bas'])
+    return m
+
+
+class FakeTask:
+    """answers getsolsta/getprimalobj/getxxslice/gety from a script and records which vector was read.  The status is only
+    available for the solution type MOSEK would have produced (itg for mixed-integer problems, itr otherwise)."""
+
+    def __init__(self, soltype, solsta, obj, xx, y):
+        self.soltype, self.solsta, self.obj, self.xx, self.y = soltype, solsta, obj, xx, y
+        self.read = []
+
+    def getsolsta(self, sol):
+        return self.solsta if sol == self.soltype else 'solsta.unknown'
+
+    def getprimalobj(self, sol):
+        return self.obj if sol == self.soltype else float('nan')
+
+    def getxxslice(self, sol, first, last, out):
+        self.read.append('xx')
+        for i in range(first, last):
+            out[i - first] = self.xx[i] if sol == self.soltype else float('nan')
+
+    def gety(self, sol, out):
+        self.read.append('y')
+        for i in range(len(out)):
+            out[i] = self.y[i] if sol == self.soltype else float('nan')
+
+
+class MStub:
+    script = None
+    seen = None
+
+    @staticmethod
+    def apply(c, A, b, K, params):
+        from sageopt.coniclifts.problems.solvers.mosek import Mosek
+        return Mosek.apply(c, A, b, K, params)
+
+    @staticmethod
+    def solve_via_data(data, params):
+        solsta, obj, rng_vals = MStub.script
+        integer = 'integer_indices' in data
+        if data['form'] == 'primal':
+            nx, ny = data['A'].shape[1], data['A'].shape[0]
+        else:
+            nx, ny = data['G'].shape[1], data['G'].shape[0]
+        xx = [rng_vals[i % len(rng_vals)] for i in range(nx)]
+        y = [rng_vals[(i + 3) % len(rng_vals)] + 0.25 for i in range(ny)]
+        task = FakeTask('soltype.itg' if integer else 'soltype.itr', 'solsta.' + solsta, obj, xx, y)
+        MStub.seen = {'form': data['form'], 'task': task, 'integer': integer, 'xx': xx, 'y': y}
+        out = {'env': None, 'task': task, 'params': params}
+        if data['form'] == 'primal':
+            out['integer'] = integer
+        return out
+
+    @staticmethod
+    def parse_result(solver_output, inv_data, var_mapping):
+        from sageopt.coniclifts.problems.solvers.mosek import Mosek
+        return Mosek.parse_result(solver_output, inv_data, var_mapping)
+
+    @staticmethod
+    def is_installed():
+        return True
+
+
+def mosek_worlds():
+    """problems whose automatic primal/dual decision differs (slack_dim <= or > number of columns), one with integer Variables"""
+    import sageopt.coniclifts as cl
+    out = []
+    x = cl.Variable(shape=(3,), name='x')
+    out.append(('lp', cl.Problem(cl.MIN, x[0] + 2 * x[1], [x[0] >= 1, x[1] >= -2, x[0] <= 5]), {}))
+    x = cl.Variable(shape=(3,), name='x')
+    out.append(('lp_max', cl.Problem(cl.MAX, x[0] - x[2] + 1.5, [x[0] <= 4, x[2] >= 0, x[1] == 1]), {}))
+    x = cl.Variable(shape=(2,), name='x')
+    y = cl.Variable(shape=(2,), name='y')
+    out.append(('two_soc', cl.Problem(cl.MAX, x[0] + y[0], [cl.vector2norm(x) <= 1, cl.vector2norm(y) <= 2]), {}))
+    x = cl.Variable(shape=(1,), name='x')
+    t = cl.Variable(shape=(1,), name='t')
+    out.append(('exp', cl.Problem(cl.MIN, t[0], [cl.weighted_sum_exp(np.array([1.0, 2.0]), cl.hstack((x, -x))) <= t[0], x[0] >= -1]), {}))
+    x = cl.Variable(shape=(4,), name='x')
+    out.append(('wide_soc', cl.Problem(cl.MIN, x[3], [cl.vector2norm(x[:3]) <= x[3], x[0] >= 1]), {}))
+    z = cl.Variable(shape=(2,), name='z')
+    w = cl.Variable(shape=(1,), name='w')
+    out.append(('integers', cl.Problem(cl.MIN, z[0] + w[0], [z[0] >= 0.5, z[1] >= 0, w[0] >= z[1]], integer_variables=[z]), {}))
+    z = cl.Variable(shape=(2,), name='z')
+    out.append(('integers_soc', cl.Problem(cl.MAX, z[0], [cl.vector2norm(z) <= 2.5], integer_variables=[z]), {}))
+    return out
+
+
+def mosek_stream(ctx):
+    """every (problem, dualize option, solution status): Problem.solve(solver='MOSEK') against the scripted task.  Checks the property
+    itself (status / value / loaded values by the MEANING of the MOSEK status for the problem sageopt posed) and collects the cases for
+    the correspondence with the generated tables."""
+    import sys
+    import sageopt.coniclifts as cl
+    from sageopt.coniclifts.problems.problem import Problem
+    fails, cases = [], []
+    saved = Problem._SOLVERS_['MOSEK']
+    saved_mod = sys.modules.get('mosek')
+    sys.modules['mosek'] = fake_mosek()
+    Problem._SOLVERS_['MOSEK'] = MStub
+    try:
+        with warnings.catch_warnings():
+            warnings.simplefilter('ignore')
+            for name, prob, _ in mosek_worlds():
+                is_min = prob.objective_sense == cl.MIN
+                n = prob.A.shape[1]
+                slack_dim = sum(co.len for co in prob.K if co.type in ('e', 'S'))
+                has_int = prob._integer_indices is not None
+                for dz in (None, True, False):
+                    for k, solsta in enumerate(SOLSTA_NAMES):
+                        obj = ctx.rng.choice([-4.5, -2.0, -0.5, 0.5, 1.5, 3.0])
+                        vals = [ctx.rng.randint(-8, 8) / 2.0 for _ in range(7)]
+                        MStub.script = (solsta, obj, vals)
+                        kwargs = {} if dz is None else {'dualize': dz}
+                        st, val = prob.solve(solver='MOSEK', verbose=False, **kwargs)
+                        seen = MStub.seen
+                        exp_dual = False if has_int else (dz if dz is not None else slack_dim > n)
+                        tag = '%s dualize=%r solsta=%s' % (name, dz, solsta)
+                        ctx.count('mosek.form', seen['form'])
+                        ctx.count('mosek.solsta', solsta)
+                        if (seen['form'] == 'dual') != exp_dual:
+                            fails.append('%s: form %s chosen, expected %s' % (tag, seen['form'], 'dual' if exp_dual else 'primal'))
+                            continue
+                        dual = seen['form'] == 'dual'
+                        # meaning of the MOSEK status for the problem sageopt posed
+                        if solsta in ('optimal', 'integer_optimal'):
+                            est, ev = 'solved', (obj if is_min else -obj)
+                            src = seen['y'] if dual else seen['xx']
+                            x0 = list(src[:n]) + [0.0]
+                        elif solsta == 'prim_infeas_cer':
+                            infeasible = not dual
+                            est, ev, x0 = 'solved', ((math.inf if is_min else -math.inf) if infeasible else (-math.inf if is_min else math.inf)), None
+                        elif solsta == 'dual_infeas_cer':
+                            infeasible = dual
+                            est, ev, x0 = 'solved', ((math.inf if is_min else -math.inf) if infeasible else (-math.inf if is_min else math.inf)), None
+                        else:
+                            est, ev, x0 = 'solver failure', math.nan, None
+                        if st != est or not same(float(val), float(ev)):
+                            fails.append('%s (%s form): reported (%s, %r), property requires (%s, %r)' % (tag, seen['form'], st, val, est, ev))
+                        for v in prob.all_variables:
+                            got = np.asarray(v.value, dtype=float)
+                            if x0 is None:
+                                if not np.all(np.isnan(got)):
+                                    fails.append('%s: Variable %s holds %r, property requires NaN' % (tag, v.name, got.tolist()))
+                            else:
+                                vm = prob.variable_map[v.name]
+                                want = np.array([x0[c] if c >= 0 else 0.0 for c in vm.ravel().tolist()]).reshape(vm.shape)
+                                if not np.array_equal(got, want):
+                                    fails.append('%s (%s form): Variable %s holds %r, expected %r' % (tag, seen['form'], v.name, got.tolist(), want.tolist()))
+                        # case for the generated tables
+                        if math.isnan(val):
+                            rep = 4
+                        elif val == math.inf:
+                            rep = 2
+                        elif val == -math.inf:
+                            rep = 3
+                        else:
+                            rep = 0 if val == obj else (1 if val == -obj else 9)
+                        rd = seen['task'].read
+                        rdc = 2 if not rd else (0 if rd == ['xx'] else (1 if rd == ['y'] else 9))
+                        loaded = bool(prob.variable_values)
+                        cin = (((has_int, dz is not None, bool(dz)), (Nat(slack_dim), Nat(n))), is_min, Nat(min(k, 4)))
+                        cout = (dual, (Nat(STATUS_CODE[st]), Nat(rep)), (loaded, Nat(rdc)))
+                        cases.append((tag, cq(cin), cq(cout)))
+    finally:
+        Problem._SOLVERS_['MOSEK'] = saved
+        if saved_mod is None:
+            sys.modules.pop('mosek', None)
+        else:
+            sys.modules['mosek'] = saved_mod
+    return fails, cases
+
+
+def run_mosek(ctx):
+    fails, cases = mosek_stream(ctx)
+    ctx.evaluations += len(cases)
+    T_in = '(bool * bool * bool) * (nat * nat) * bool * nat'
+    T_out = 'bool * (nat * nat) * (bool * nat)'
+    mism, err = vlib.run_suite_in_coq(ctx.pid, 'mosek_tables', MOSEK_HEADER, 'model', 'out_eqb', T_in, T_out,
+                                      [(c[1], c[2]) for c in cases], shard=300)
+    ctx.suites['mosek_tables'] = {'cases': len(cases), 'mismatches': None if mism is None else len(mism), 'oracle_failures': len(fails),
+                                  'note': 'Problem.solve(solver=MOSEK) with a scripted mosek module/task: the real Mosek.apply, parse_result and '
+                                          'Problem.solve run; the tables generated from mosek.py are compared with what they do'}
+    if err:
+        ctx.problem('correspondence', 'suite mosek_tables: ' + err)
+    else:
+        for idx in mism[:3]:
+            model_out = vlib.coq_show(MOSEK_HEADER, 'model %s' % cases[idx][1])
+            ctx.problem('correspondence', 'suite mosek_tables: generated table and implementation disagree on %s; impl=%s model=%s'
+                        % (cases[idx][0], cases[idx][2], model_out[:300]), inputs={'mosek_case': cases[idx][0]}, failing_input_found=False)
+    for f in fails[:3]:
+        ctx.problem('oracle', 'scripted MOSEK stream: ' + f, inputs={'mosek_case': f.split(':')[0]}, failing_input_found=True)
+
+
 def run(ctx):
+    run_mosek(ctx)
     cases = []
     nh = ctx.n(60, 600)
     for h in range(nh):
@@ -334,6 +562,9 @@ def search(ctx):
     fails = real_ecos_stream(ctx)
     if fails:
         return {'toy': fails[0].split(':')[0], 'property_failure': fails[0]}
+    fails, _ = mosek_stream(ctx)
+    if fails:
+        return {'mosek_case': fails[0].split(':')[0], 'property_failure': fails[0]}
     return None
 
 
